@@ -270,13 +270,12 @@ decimal is the value cut to the buffer -/
 theorem setBody_specT (neg : Bool) (t : Bytes) (prev : Bool) (hu : underscoresOK isDec prev t = true) :
     ∀ M E, parseBody isDec 10 101 1 false (strip t) = some (M, E) →
       valOf 10 ((strip t).takeWhile isDec) < 10 ^ 800 →
-      valOf 10 (expLitDigits isDec (strip t)) < 10000 →
       ∃ d, (match setLoop t {} with
         | none => (none : Option Dc)
         | some (st, rest) => if !st.sawdigits then none else (tailAdj false rest).map (fun x => mkDc st neg x)) = some d ∧
         WF d ∧ d.neg = neg ∧ (M = 0 → d.d = [] ∧ d.trunc = false) ∧
-        (M ≠ 0 → d.d ≠ [] ∧ dval d ≤ (M : ℚ) * (10 : ℚ) ^ E ∧ (M : ℚ) * (10 : ℚ) ^ E < dval d + (10 : ℚ) ^ (d.dp - 800) ∧
-          (d.trunc = false → dval d = (M : ℚ) * (10 : ℚ) ^ E) ∧ (d.trunc = true → dval d < (M : ℚ) * (10 : ℚ) ^ E)) := by
+        (M ≠ 0 → d.d ≠ [] ∧ dval d ≤ (M : ℚ) * (10 : ℚ) ^ (E + expGap isDec (strip t)) ∧ (M : ℚ) * (10 : ℚ) ^ (E + expGap isDec (strip t)) < dval d + (10 : ℚ) ^ (d.dp - 800) ∧
+          (d.trunc = false → dval d = (M : ℚ) * (10 : ℚ) ^ (E + expGap isDec (strip t))) ∧ (d.trunc = true → dval d < (M : ℚ) * (10 : ℚ) ^ (E + expGap isDec (strip t)))) := by
   have hpb := parseBody_eq2 false (strip t)
   have ed : digS false = isDec := rfl
   have eb : baseOf false = 10 := rfl
@@ -314,10 +313,10 @@ theorem setBody_specT (neg : Bool) (t : Bytes) (prev : Bool) (hu : underscoresOK
         | some x =>
           obtain ⟨y, hy, hyx⟩ := t2 x hsp
           rw [hy]
-          intro M E h hInt hlit
+          intro M E h hInt
           simp only [Option.map_some, Option.some.injEq, Prod.mk.injEq] at h
           obtain ⟨hMe, hEe⟩ := h
-          have hyx' : y = x := hyx (by unfold expLitDigits at hlit; exact hlit)
+          have hyx' : y = x + expGap isDec (strip t) := by unfold expGap; exact hyx
           have hrefM : (refMant false t 0 0 false).1 = M := by rw [href]; exact hMe
           have hF : (refMant false t 0 0 false).2 = (spFP isDec (strip t)).length := by rw [href]
           -- the integer part of the reference value
@@ -389,24 +388,25 @@ theorem setBody_specT (neg : Bool) (t : Bytes) (prev : Bool) (hu : underscoresOK
               simp [valOf] at hv
               omega
             refine ⟨hne, ?_⟩
+            generalize hE2 : E + expGap isDec (strip t) = E2
             -- the exponent of the last kept digit
-            have hexp : (if !ss.sawdot then (ss.nd : Int) else ss.dp) + y - (ss.acc.reverse.length : Int) = E + r := by
-              rw [List.length_reverse, sinv.len, hyx', ← hEe]
+            have hexp : (if !ss.sawdot then (ss.nd : Int) else ss.dp) + y - (ss.acc.reverse.length : Int) = E2 + r := by
+              rw [List.length_reverse, sinv.len]
               cases hsd0 : ss.sawdot
               · obtain ⟨a, b⟩ := sinv.d4 hsd0
                 simp only [Bool.not_false, if_true]; rw [b]; push_cast; omega
               · have := sinv.d3 hsd0
                 simp only [Bool.not_true, Bool.false_eq_true, if_false]; push_cast; omega
-            have hdv : dval (mkDc ss neg y) = (valOf 10 ss.acc.reverse : ℚ) * (10 : ℚ) ^ (E + r) := by
+            have hdv : dval (mkDc ss neg y) = (valOf 10 ss.acc.reverse : ℚ) * (10 : ℚ) ^ (E2 + r) := by
               show (valOf 10 ss.acc.reverse : ℚ) * (10 : ℚ) ^ ((if !ss.sawdot then (ss.nd : Int) else ss.dp) + y - (ss.acc.reverse.length : Int)) = _
               rw [hexp]
             have hMq : (M : ℚ) = (valOf 10 ss.acc.reverse : ℚ) * (10 : ℚ) ^ r + D := by
               have := sinv.v
               have : ((valOf 10 ss.acc.reverse * 10 ^ r + D : Nat) : ℚ) = (M : ℚ) := by rw [this]
               push_cast at this; linarith
-            have hV : (M : ℚ) * (10 : ℚ) ^ E = dval (mkDc ss neg y) + (D : ℚ) * (10 : ℚ) ^ E := by
+            have hV : (M : ℚ) * (10 : ℚ) ^ E2 = dval (mkDc ss neg y) + (D : ℚ) * (10 : ℚ) ^ E2 := by
               rw [hdv, hMq, zpow_add₀ (by norm_num : (10 : ℚ) ≠ 0), zpow_natCast]; ring
-            have hE : (0 : ℚ) < (10 : ℚ) ^ E := zpow_pos (by norm_num) _
+            have hE : (0 : ℚ) < (10 : ℚ) ^ E2 := zpow_pos (by norm_num) _
             have hDq : (0 : ℚ) ≤ (D : ℚ) := Nat.cast_nonneg _
             have hDlt : (D : ℚ) < (10 : ℚ) ^ r := by exact_mod_cast sinv.dlt
             refine ⟨by rw [hV]; exact le_add_of_nonneg_right (mul_nonneg hDq hE.le), ?_, ?_, ?_⟩
@@ -420,7 +420,7 @@ theorem setBody_specT (neg : Bool) (t : Bytes) (prev : Bool) (hu : underscoresOK
                   · have := sinv.dlt; rw [h] at this; omega
                   · exact h
                 have hnd := sinv.full hr0
-                have hgrid : (mkDc ss neg y).dp - 800 = E + r := by
+                have hgrid : (mkDc ss neg y).dp - 800 = E2 + r := by
                   have e1 : ((mkDc ss neg y).dp : Int) = (if !ss.sawdot then (ss.nd : Int) else ss.dp) + y := rfl
                   rw [e1]
                   rw [List.length_reverse, sinv.len] at hexp
@@ -429,7 +429,7 @@ theorem setBody_specT (neg : Bool) (t : Bytes) (prev : Bool) (hu : underscoresOK
                   omega
                 rw [hgrid, zpow_add₀ (by norm_num : (10 : ℚ) ≠ 0), zpow_natCast]
                 have := mul_lt_mul_of_pos_right hDlt hE
-                rw [mul_comm ((10 : ℚ) ^ E) ((10 : ℚ) ^ r)]
+                rw [mul_comm ((10 : ℚ) ^ E2) ((10 : ℚ) ^ r)]
                 exact add_lt_add_right this _
             · intro htr
               have hD0 : D = 0 := by
@@ -472,10 +472,12 @@ theorem valOf_lt_sig : ∀ (l : Bytes), l.all isDec = true → valOf 10 l < 10 ^
 significant digits BEFORE the point; any number after it): the decimal is the text's value cut
 to the 800-digit buffer, `trunc` set exactly when a non-zero digit was cut. -/
 theorem decSet_specT (s : Bytes) (hu : underscoreOK s = true) :
-    ∀ p, recognise s = some p → p.hex = false → (mantDigits s).1.length ≤ 800 → expLit s < 10000 →
+    ∀ p, recognise s = some p → p.hex = false → (mantDigits s).1.length ≤ 800 →
       ∃ d, decSet s = some d ∧ WF d ∧ d.neg = p.neg ∧ (p.mant = 0 → d.d = [] ∧ d.trunc = false) ∧
-        (p.mant ≠ 0 → d.d ≠ [] ∧ dval d ≤ valueOf p ∧ valueOf p < dval d + (10 : ℚ) ^ (d.dp - 800) ∧
-          (d.trunc = false → dval d = valueOf p) ∧ (d.trunc = true → dval d < valueOf p)) := by
+        (p.mant ≠ 0 → d.d ≠ [] ∧ dval d ≤ valueOf (clampP p (expGapS s)) ∧
+          valueOf (clampP p (expGapS s)) < dval d + (10 : ℚ) ^ (d.dp - 800) ∧
+          (d.trunc = false → dval d = valueOf (clampP p (expGapS s))) ∧
+          (d.trunc = true → dval d < valueOf (clampP p (expGapS s)))) := by
   cases s with
   | nil =>
     have : recognise [] = none := by decide
@@ -483,7 +485,7 @@ theorem decSet_specT (s : Bytes) (hu : underscoreOK s = true) :
   | cons c0 tl =>
     rw [underscoreOK_cons] at hu
     rw [recognise_cons, decSet_cons]
-    unfold expLit mantDigits
+    unfold expGapS mantDigits
     rw [splitSign_cons]
     simp only []
     generalize bodyOf c0 tl = body at *
@@ -522,7 +524,7 @@ theorem decSet_specT (s : Bytes) (hu : underscoreOK s = true) :
       rw [ed] at hu
       simp only [h1, Bool.false_eq_true, if_false, hu, Bool.not_true]
       have k2 := setBody_specT (c0 == 45) body false hu
-      intro p h hh hI hlit
+      intro p h hh hI
       cases hpb : parseBody isDec 10 101 1 false (strip body) with
       | none => rw [hpb] at h; cases h
       | some q =>
@@ -535,10 +537,10 @@ theorem decSet_specT (s : Bytes) (hu : underscoreOK s = true) :
           have h2' : 10 ^ (((strip body).takeWhile isDec).dropWhile (· == 48)).length ≤ 10 ^ 800 :=
             Nat.pow_le_pow_right (by decide) hI
           omega
-        obtain ⟨d, e1, e2, e3, e4, e5⟩ := k2 M E hpb hInt hlit
+        obtain ⟨d, e1, e2, e3, e4, e5⟩ := k2 M E hpb hInt
         refine ⟨d, e1, e2, e3, e4, fun hm0 => ?_⟩
         have := e5 hm0
-        unfold valueOf
-        simpa using this
+        unfold valueOf clampP
+        simpa [h1] using this
 
 end C03
